@@ -185,11 +185,68 @@ Proof.
   - apply orderedb_sound; [exact Hnd_all | intros f Hf; rewrite Hall; right; apply in_or_app; now right | assumption].
 Qed.
 
-Definition struct_okb (s : struct) : bool := flat_structb s || based_structb s.
+Definition pos_memberb (allfs : list field) (f : field) : bool :=
+  match classify tm allfs f with
+  | Some (MkNamed _) => true
+  | Some k => match int_kind k with Some i => 0 <? it_size i | None => false end
+  | None => false
+  end.
+
+Lemma pos_memberb_sound allfs f : pos_memberb allfs f = true -> pos_member tm allfs f.
+Proof.
+  unfold pos_memberb, pos_member. intros Hex.
+  destruct (classify tm allfs f) as [[i|i n|i g|t|n|a n]|] eqn:Hk; try discriminate.
+  + left. exists (MkInt i), i. cbn [int_kind] in Hex. repeat split. lia.
+  + left. exists (MkReserved i n), i. cbn [int_kind] in Hex. repeat split. lia.
+  + left. exists (MkCount i g), i. cbn [int_kind] in Hex. repeat split. lia.
+  + right. exists t. reflexivity.
+Qed.
+
+(* parent without @size member (NEM) *)
+Definition based_nosizeb (s : struct) : bool :=
+  match base_struct tm s with
+  | Some a =>
+    let hfs := struct_fields_nc a in
+    let allfs := struct_fields_nc s in
+    let own := own_fields tm s in
+    match s_disp s with SdAbstract => false | _ => true end
+    && fields_eqb allfs (hfs ++ own)
+    && nodup_names (map f_name (hfs ++ own))
+    && struct_size_attr_none a && struct_size_attr_none s
+    && forallb (fun f => negb (String.eqb (f_name f) "size")) allfs
+    && orderedb allfs [] hfs && orderedb allfs hfs own
+    && existsb (pos_memberb allfs) allfs
+  | None => false
+  end.
+
+Lemma based_nosizeb_sound s : self_lookup s -> based_nosizeb s = true -> exists a hfs, based_nosize_struct tm s a hfs.
+Proof.
+  intros Hself H. unfold based_nosizeb in H.
+  destruct (base_struct tm s) as [a|] eqn:Hb; [|discriminate].
+  repeat (apply Bool.andb_true_iff in H as [H ?]).
+  match goal with Hx : fields_eqb _ _ = true |- _ => pose proof (fields_eqb_eq _ _ Hx) as Hall end.
+  match goal with Hx : nodup_names _ = true |- _ => pose proof (nodup_names_sound _ Hx) as Hnd end.
+  assert (Hnd_all : NoDup (map f_name (struct_fields_nc s))) by (rewrite Hall; exact Hnd).
+  exists a, (struct_fields_nc a). constructor; try assumption; try reflexivity.
+  - destruct (s_disp s); congruence.
+  - unfold struct_size_attr_none in *. destruct (struct_size_attr a); [discriminate|reflexivity].
+  - unfold struct_size_attr_none in *. destruct (struct_size_attr s); [discriminate|reflexivity].
+  - intros f Hf Hn. match goal with Hs : forallb _ _ = true |- _ => rewrite forallb_forall in Hs; specialize (Hs f Hf) end.
+    rewrite Hn in *. discriminate.
+  - apply orderedb_sound; [exact Hnd_all | intros f Hf; rewrite Hall; apply in_or_app; now left | assumption].
+  - apply orderedb_sound; [exact Hnd_all | intros f Hf; rewrite Hall; apply in_or_app; now right | assumption].
+  - match goal with Hx : existsb _ _ = true |- _ => apply existsb_exists in Hx as (f & Hf & Hex) end.
+    exists f. split; [exact Hf | now apply pos_memberb_sound].
+Qed.
+
+Definition struct_okb (s : struct) : bool := flat_structb s || based_structb s || based_nosizeb s.
 
 Lemma struct_okb_sound s : self_lookup s -> struct_okb s = true -> struct_ok tm s.
 Proof.
-  intros Hself H. apply Bool.orb_true_iff in H as [H|H]; [left; now apply flat_structb_sound | right; now apply based_structb_sound].
+  intros Hself H. apply Bool.orb_true_iff in H as [H|H]; [apply Bool.orb_true_iff in H as [H|H]|].
+  - left; now apply flat_structb_sound.
+  - right; left; now apply based_structb_sound.
+  - right; right; now apply based_nosizeb_sound.
 Qed.
 
 (* values *)
